@@ -249,6 +249,11 @@ fn agree(reference: &Obs, o: &Obs, what: &str) -> Result<(), String> {
     Ok(())
 }
 
+thread_local! {
+    static TOLERATE_F42: std::cell::Cell<bool> = std::cell::Cell::new(false);
+    static SAW_F42: std::cell::Cell<bool> = std::cell::Cell::new(false);
+}
+
 /// The predicate: every configuration reports the verdict of the evaluation record.
 pub fn check_all(doc: &str, rules: &str, evals: &mut u64) -> Result<Option<(Obs, usize)>, (String, String)> {
     let e = |m: String, s: &str| (m, s.to_string());
@@ -308,7 +313,21 @@ pub fn check_all(doc: &str, rules: &str, evals: &mut u64) -> Result<Option<(Obs,
         configs += 1;
         if shown != vec![Show::None] {
             let obs = parse_table(&r.out, &shown).map_err(|x| (format!("{}: {}", what, x), "c07:table".to_string()))?;
-            m(agree(&reference, &obs, &what), "c07:table")?;
+            // recorded finding F42 (duplicated rule names only): the table drops a name from SKIP
+            // when another definition of it is PASS or FAIL. Where the caller asks for it, exactly
+            // that pattern is noted and the remaining comparisons go on.
+            let mut table_ref = reference.clone();
+            if TOLERATE_F42.with(|t| t.get()) {
+                if let (Some(rs), Some(os)) = (&reference.skip, &obs.skip) {
+                    let other: BTreeSet<String> = reference.pass.clone().unwrap_or_default().union(&reference.fail.clone().unwrap_or_default()).cloned().collect();
+                    let f42: BTreeSet<String> = rs.difference(&other).cloned().collect();
+                    if *os != *rs && *os == f42 {
+                        SAW_F42.with(|t| t.set(true));
+                        table_ref.skip = Some(f42);
+                    }
+                }
+            }
+            m(agree(&table_ref, &obs, &what), "c07:table")?;
         }
     }
     // ---- plain -o json / -o yaml (one document per pair), and equality of the two as data
@@ -423,6 +442,17 @@ pub fn check_all(doc: &str, rules: &str, evals: &mut u64) -> Result<Option<(Obs,
 
 pub fn replay(case: &J) -> CaseResult {
     let mut ev = 0;
+    if case["kind"] == "duplicate-names" {
+        TOLERATE_F42.with(|t| t.set(true));
+        SAW_F42.with(|t| t.set(false));
+        let r = check_all(case["doc"].as_str().unwrap_or(""), case["rules"].as_str().unwrap_or(""), &mut ev);
+        TOLERATE_F42.with(|t| t.set(false));
+        return match r {
+            Err((msg, sig)) => CaseResult::Fail(Failure { msg, sig: format!("c07:duplicate-names:{}", sig.trim_start_matches("c07:")), case: case.clone() }),
+            Ok(_) if SAW_F42.with(|t| t.get()) => CaseResult::Fail(Failure { msg: "the console summary table drops a doubly defined name from the SKIP list".into(), sig: "c07:duplicate-names:table".into(), case: case.clone() }),
+            Ok(_) => CaseResult::Pass(Info::default()),
+        };
+    }
     if case["kind"] == "multi-data" {
         let docs: Vec<String> = case["docs"].as_array().map(|a| a.iter().map(|x| x.as_str().unwrap_or("").to_string()).collect()).unwrap_or_default();
         return match check_multi_data(case["rules"].as_str().unwrap_or(""), &docs, &mut ev) {
@@ -514,7 +544,18 @@ fn duplicate_names_case(u: &mut Choices, sz: Size) -> CaseResult {
             }
         }
     }
+    // every other rendering is compared too; the F42 pattern in the tables is noted, not fatal
+    TOLERATE_F42.with(|t| t.set(true));
+    SAW_F42.with(|t| t.set(false));
     let r = check_all(&doc_text, &text, &mut evals).map_err(|(m, sg)| (format!("rule name {} defined twice: {}", new, m), format!("c07:duplicate-names:{}", sg.trim_start_matches("c07:"))));
+    TOLERATE_F42.with(|t| t.set(false));
+    if r.is_ok() && SAW_F42.with(|t| t.get()) {
+        return CaseResult::Fail(Failure {
+            msg: format!("rule name {} defined twice: the console summary table drops it from the SKIP list because another definition is PASS or FAIL; JSON, YAML and the evaluation record list it under both", new),
+            sig: "c07:duplicate-names:table".into(),
+            case: json!({"kind": "duplicate-names", "doc": doc_text, "rules": text}),
+        });
+    }
     finish(doc_text, text, r, evals, vec!["duplicate-rule-name".into()])
 }
 
